@@ -172,6 +172,12 @@ func (p *Parser) Parse(formatOnly bool) (*bytes.Buffer, int) {
 	// now that the file was parsed, we replace all definitions
 	if len(p.variables) > 0 {
 		p.dest = expandDefinitions(p.dest, p.variables)
+		for i, prefix := range p.Prefixes {
+			p.Prefixes[i] = expandDefinitions(bytes.NewBufferString(prefix), p.variables).String()
+		}
+		for i, suffix := range p.Suffixes {
+			p.Suffixes[i] = expandDefinitions(bytes.NewBufferString(suffix), p.variables).String()
+		}
 	}
 	return p.dest, wrote
 }
